@@ -37,7 +37,8 @@ Print Assumptions C09_failed_op_restores_refuted.
    implemented revision, unknown feature, if-feature of an enabled feature, a node that does not compile, leafref target,
    disabled list key) and whatever it did before failing (created modules, took the latest-revision flag, changed
    feature bits, implemented and compiled modules). Uses the code as of /repo commits 21681e3 (the revert gives
-   LYS_MOD_LATEST_REV back) and af27b8d (the revert writes the remembered feature states back and recompiles). *)
+   LYS_MOD_LATEST_REV back), af27b8d / d89c6b6 (the revert writes the remembered feature states back and recompiles) and
+   c018937 (the revert marks every implemented module of the dependency sets before it recompiles). *)
 Theorem C09_failed_op_restores : forall R s o s',
   reachable R s -> quiescent s = true -> step R s o = (s', RErr) -> obs s' = obs s.
 Proof. exact failed_restores_reachable. Qed.
